@@ -66,3 +66,9 @@ Theorem C09_to_normal_form_shape : forall (Vr : Type) (E : EqDec Vr) (fuel : nat
   to_normal_form fuel G = Some C -> is_normal_form C = true.
 Proof. exact (@to_normal_form_nf). Qed.
 Print Assumptions C09_to_normal_form_shape.
+
+(* the recursion of to_normal_form always finishes: one clean-up reaches the fast path (or leaves no production) *)
+From PFL Require Import Proofs.CfgNfTotal.
+Theorem C09_to_normal_form_total : forall (Vr : Type) (E : EqDec Vr) (G : cfg Vr) (n : nat), exists C, to_normal_form (S n) G = Some C.
+Proof. exact (@to_normal_form_total). Qed.
+Print Assumptions C09_to_normal_form_total.
